@@ -313,6 +313,20 @@ class Run:
         timers = vtime.pending(kind="_on_wait_comm_delay_timeout", owner=self.h.communication_state)
         if not timers:
             return False
+        if len(timers) > 1:
+            # more than one delay timer is armed: all but the newest belong to an earlier episode (disable, link loss) and are
+            # due before the delay of the current one has run out - in real time they fire first. They must have no effect.
+            self.note("stale_delay_timer_expires")
+            self.ctx.count("oracle.M2_stale_timer_fired")
+            state_before = self.rig.comm_state
+            th = vtime.fire(timers[0])
+            if th is not None:
+                th.join(3.0)
+            self.settle()
+            out = self.new_out()
+            if any((f.stream, f.function) == (1, 13) for _, f in out) or (state_before == "WAIT_DELAY" and self.rig.comm_state != state_before):
+                self.violation("M2:delay-timer-of-an-earlier-episode-triggers-the-retry-early", comm_before=state_before, comm_after=self.rig.comm_state)
+            return True
         self.note("delay_expires")
         link = self.link_gen()
         state_before = self.rig.comm_state
